@@ -203,7 +203,13 @@ protected:
     if (chunk.advanced != 0) {
       // Checking if a full string is encoded in these advanced chars
       chunk.str[prevLen + chunk.advanced] = 0;
-      nextLen = strlen((char *)(chunk.str + prevLen));
+      // The VByte of the shared-prefix length can hold zero bytes (multiples
+      // of 128): the terminator is searched after it
+      nextLen = 0;
+      while ((nextLen < chunk.advanced) &&
+             !(chunk.str[prevLen + nextLen] & 0x80))
+        nextLen++;
+      nextLen += strlen((char *)(chunk.str + prevLen + nextLen));
 
       if ((nextLen < chunk.advanced) && (nextLen > 0)) {
         uint read =
